@@ -79,16 +79,33 @@ func genC02(g *gen, c *sim.Case, tier string) {
 	c.Sched = sched(r, time.Second, 40000)
 	keys := []string{"a", "b", "c"}[:1+r.Intn(3)]
 	nt := 2 + r.Intn(3)
+	maxOps := 6
+	if tier == "thorough" && r.Chance(1, 3) {
+		nt = 2 + r.Intn(4)
+		maxOps = 10
+	}
 	if r.Chance(1, 4) {
 		c.Knobs["shared_client"] = 1
+	}
+	// swarm: some runs use only a random subset of the operation kinds, which makes
+	// particular races (create/delete, cas/cas, putmany/get ...) much denser
+	allowed := map[int]bool{}
+	if r.Chance(1, 2) {
+		for len(allowed) < 3+r.Intn(4) {
+			allowed[r.Intn(12)] = true
+		}
 	}
 	// optional preface by task 0 creating some keys so that CAS/Delete races have a target
 	for t := 0; t < nt; t++ {
 		task := sim.Task{Name: fmt.Sprintf("t%d", t)}
-		n := 3 + r.Intn(6)
+		n := 3 + r.Intn(maxOps)
 		for i := 0; i < n; i++ {
 			k := keys[r.Intn(len(keys))]
-			switch r.Intn(12) {
+			kind := r.Intn(12)
+			for tries := 0; len(allowed) > 0 && !allowed[kind] && tries < 50; tries++ {
+				kind = r.Intn(12)
+			}
+			switch kind {
 			case 0, 1, 2:
 				task.Ops = append(task.Ops, sim.Op{K: "create", S: k, V: g.val(), D: g.expiryFar()})
 			case 3, 4:
